@@ -1030,6 +1030,84 @@ func runC14(c *core.Case) {
 		return
 	}
 	hist = append(hist, "create+commits")
+	if background && c.Index%44 == 43 {
+		// Somebody else moves the service while the background loop runs with its
+		// cached position map (a late upload of a former primary): the primary's
+		// next upload is refused by the SERVICE, the primary adopts the service's
+		// state - and from then on its commits must reach the service again, without
+		// another restore and without being lost.
+		c.Count("background_cases", 1)
+		waitEqual := func(ctx string) bool {
+			for dl := time.Now().Add(40 * time.Second); time.Now().Before(dl); time.Sleep(5 * time.Millisecond) {
+				if ch := c14ChainOf(svc.files("db")); len(ch.problems) == 0 && ch.pos == mon.PosOf(P.n, "db") && ch.pos.TXID > 0 {
+					return true
+				}
+			}
+			c.Inconclusive("background loop (" + ctx + "): service and primary did not meet within the watchdog")
+			return false
+		}
+		if !waitEqual("first upload") {
+			return
+		}
+		if !extendViaShadow(1 + c.Rng.IntN(2)) {
+			return
+		}
+		hist = append(hist, "another uploader extended the service to "+c14ChainOf(svc.files("db")).pos.String())
+		if err := commitN(P, 1); err != nil {
+			c.Violate("C14/commit-failed", err.Error(), detail(nil))
+			return
+		}
+		hist = append(hist, "local commit on the stale position (refused by the service, the primary adopts the service)")
+		if !waitEqual("adoption after the service refused an upload") {
+			return
+		}
+		if P.w != nil {
+			P.w.close()
+			P.w = nil
+		}
+		m1 := P.rec.mark()
+		if err := openWriter(P, false); err != nil {
+			c.Violate("C14/setup", "reopen: "+err.Error(), detail(nil))
+			return
+		}
+		if err := commitN(P, 1+c.Rng.IntN(2)); err != nil {
+			c.Violate("C14/commit-failed", "after the adoption: "+err.Error(), detail(nil))
+			return
+		}
+		want := mon.PosKey{TXID: mon.PosOf(P.n, "db").TXID, Chk: P.w.d.M.Checksum()}
+		hist = append(hist, "commits after the adoption, up to "+want.String())
+		deadline := time.Now().Add(40 * time.Second)
+		for {
+			pos := mon.PosOf(P.n, "db")
+			ch := c14ChainOf(svc.files("db"))
+			restores := 0
+			for _, e := range P.rec.since(m1) {
+				if e.Op == "FetchSnapshot" {
+					restores++
+				}
+			}
+			if restores > 0 || pos != want {
+				c.Violate("C14/spurious-restore", fmt.Sprintf("refused-upload: after the service refused an upload and the primary adopted the service's state, the primary committed up to %s; the service held a strict prefix of that, yet the primary fetched the service's snapshot %d time(s) and is at %s now: acknowledged commits are gone", want, restores, pos), detail(nil))
+				return
+			}
+			if len(ch.problems) == 0 && ch.pos == want {
+				break
+			}
+			if time.Now().After(deadline) {
+				c.Inconclusive("background loop (refused-upload): too few rounds within the watchdog")
+				return
+			}
+			time.Sleep(5 * time.Millisecond)
+		}
+		if _, ok := judgeService("refused-upload"); !ok || checkHWM() {
+			return
+		}
+		c.Count("background_converged", 1)
+		c.Count("converged_identical", 1)
+		c.Count("background_refused_upload_then_commits_kept", 1)
+		c.Distinct("background/refused-upload")
+		return
+	}
 	if background {
 		c14Background(c, cl, P, svc, led, commitN, judgeService, checkHWM, detail, bigBackground, snapRace)
 		return
